@@ -8,6 +8,14 @@
 (* the tolerance band, non-degenerate point sets, manifold triangulations).*)
 (* Coordinates are integers; a half-lattice case has all its coordinates   *)
 (* doubled by the harness (in.den = 2), which does not change any sign.    *)
+(* Clauses (predicates = same answer as exact arithmetic):                 *)
+(*   CcwPolygon CcwPolyline PolygonAgree CellAgree PolyhedronAgree         *)
+(*   PolyhedronAgreeSupportPlane (same demand, for points lying in the     *)
+(*   supporting plane of a face but off the surface: a separately named    *)
+(*   class) HalfSpaceAgree PlanarAgree PlanarNormalAgree CollinearAgree    *)
+(* Clauses (orderings = returned chain / order is valid for the input):    *)
+(*   PairSortValid MultiPairSortValid LineSortValid PlaneSortValid         *)
+(*   TriSortValid                                                          *)
 (***************************************************************************)
 EXTENDS Judge, Predicates
 
@@ -21,6 +29,9 @@ CcwPolyline == Check("CcwPolyline",
   Is("is_ccw_polyline") /\ ~OnLine2(I.p1, I.p2, I.p) => C.ok /\ C.out = Left(I.p1, I.p2, I.p))
 PolygonAgree == Check("PolygonAgree",
   Is("point_in_polygon") /\ SimplePoly(I.poly) /\ ~OnBoundary2(I.poly, I.p) => C.ok /\ C.out = InPolygon(I.poly, I.p))
+\* point_in_cell: the polygon is embedded in the plane z = 0 (with / without the code's own projection)
+CellAgree == Check("CellAgree",
+  Is("point_in_cell") /\ SimplePoly(I.poly) /\ ~OnBoundary2(I.poly, I.p) => C.ok /\ C.out = InPolygon(I.poly, I.p))
 \* point_in_polyhedron, split by whether the point lies in the supporting plane of a face (off the surface)
 PolyhedronAgree == Check("PolyhedronAgree",
   Is("point_in_polyhedron") /\ ~OnSurface(I.faces, I.p) /\ ~OnSupportPlane(I.faces, I.p)
@@ -34,11 +45,9 @@ PlanarAgree == Check("PlanarAgree",
   Is("points_are_planar") /\ ~Collinear(I.pts) => C.ok /\ C.out = Planar(I.pts))
 PlanarNormalAgree == Check("PlanarNormalAgree",
   Is("points_are_planar_normal") /\ ~Zero3(I.normal) => C.ok /\ C.out = PlanarN(I.pts, I.normal))
-\* points_are_collinear, split by whether the two reference points (the first two) coincide
+\* points_are_collinear: any point multiset (the first two points may coincide)
 CollinearAgree == Check("CollinearAgree",
-  Is("points_are_collinear") /\ I.pts[1] # I.pts[2] => C.ok /\ C.out = Collinear(I.pts))
-CollinearAgreeDupRef == Check("CollinearAgreeDupRef",
-  Is("points_are_collinear") /\ I.pts[1] = I.pts[2] => C.ok /\ C.out = Collinear(I.pts))
+  Is("points_are_collinear") => C.ok /\ C.out = Collinear(I.pts))
 
 \* ---- orderings ----
 \* input family of the pair sorters: the columns form one closed cycle / one open path
